@@ -101,6 +101,16 @@ CHECKS = {
         note="Trusted: numpy backend as the reference side of the differential; domain guards (integer operands for ! and :%, no "
              "poles, magnitudes < 2^24); near-integral reals may come back as integers from float32.",
         design="3/C08"),
+    "C03": dict(
+        category="exploration",
+        technique="property-based testing with a textual-substitution oracle (Hypothesis body/argument/call-form strategies), exhaustive enumeration of projection patterns x fill orders and of the conditional truth universe, fault enumeration of raise positions against a small statement-language model",
+        text="(a) generated function bodies, argument tuples and call forms (literal, variable, @, each, each-2, over, .f recursion, "
+             "projection; with and without explicit arity) must equal the body with argument literals substituted, evaluated in a "
+             "fresh interpreter; (b) every projection pattern of arity 2/3 x every ordered partition of the holes; (c) nested calls "
+             "with locals and global assignments failing at every position: caller state, context depth and a probe suite must match "
+             "the model / a fresh interpreter; (d) conditionals over the truth universe. Exhaustive for (b),(d), exploration for (a),(c).",
+        note="Trusted: substitution is evaluated by klongpy itself (plain evaluation as reference); the statement-language model of (c).",
+        design="3/C03"),
 }
 
 NOT_APPLICABLE = {
